@@ -47,7 +47,7 @@ impl<T> RwLock<T> {
 /// conservative (reading `vx_published` as `true` satisfies it).
 #[verifier::external_body]
 pub proof fn vx_release_write<T: VxLockInv>(old: T, new: T)
-    requires /*@C11,C16*/ old.vx_lock_step(&new),
+    requires /*@C11,C16,C01,C19*/ old.vx_lock_step(&new),
     ensures new.vx_published(),
 {}
 /// R19: does this value make `?` leave the function
@@ -161,11 +161,11 @@ impl ShardFileManager {
 //@ contract
         ensures
             // Ok: everything that was in the in-memory state when this call took the lock is in a shard file ...
-            /*@C11,C16*/ ret is Ok ==> exists|s: MDBInMemoryShard| #[trigger] self.current_state.vx_acquired(s) && all_flushed(s.view()),
+            /*@C11,C16,C01,C19*/ ret is Ok ==> exists|s: MDBInMemoryShard| #[trigger] self.current_state.vx_acquired(s) && all_flushed(s.view()),
             // ... "None if no file was written" is answered only for an empty state
-            /*@C11,C16*/ ret matches Ok(None) ==> exists|s: MDBInMemoryShard| #[trigger] self.current_state.vx_acquired(s) && s.view() == Set::<VxRecId>::empty(),
+            /*@C11,C16,C01,C19*/ ret matches Ok(None) ==> exists|s: MDBInMemoryShard| #[trigger] self.current_state.vx_acquired(s) && s.view() == Set::<VxRecId>::empty(),
             // ... and the path handed back names the file that holds exactly that state
-            /*@C11,C09,C16*/ ret matches Ok(Some(p)) ==> exists|s: MDBInMemoryShard| #[trigger] self.current_state.vx_acquired(s) && vx_shard_file(p, s.view()),
+            /*@C11,C09,C16,C01,C19*/ ret matches Ok(Some(p)) ==> exists|s: MDBInMemoryShard| #[trigger] self.current_state.vx_acquired(s) && vx_shard_file(p, s.view()),
 //@ end
 
 //@ extract mdb_shard/src/shard_file_manager.rs in `impl ShardFileManager` fn add_cas_block
@@ -174,7 +174,7 @@ impl ShardFileManager {
 //@ contract
         ensures
             // Ok: the record was in the shared state when the write guard was released (release obligations: nothing else left it)
-            /*@C11,C16*/ ret is Ok ==> vx_recorded(vx_cas_id(cas_block_contents)),
+            /*@C11,C16,C01,C19*/ ret is Ok ==> vx_recorded(vx_cas_id(cas_block_contents)),
 //@ end
 
 //@ extract mdb_shard/src/shard_file_manager.rs in `impl ShardFileManager` fn add_file_reconstruction_info
@@ -182,7 +182,7 @@ impl ShardFileManager {
 //@ rules R19
 //@ contract
         ensures
-            /*@C11,C16*/ ret is Ok ==> vx_recorded(vx_file_id(file_info)),
+            /*@C11,C16,C01,C19*/ ret is Ok ==> vx_recorded(vx_file_id(file_info)),
 //@ end
 }
 
